@@ -556,7 +556,25 @@ pub fn generate_c15(run_seed: u64, thorough: bool, faults: bool) -> ListDesc {
                 Op::Contains { h, .. } | Op::Index { h, .. } | Op::Get { h, .. } | Op::Len { h } | Op::ForFind { h, .. } => Some(*h),
                 _ => None,
             };
-            if let Some(t) = target {
+            // a search that missed: sometimes the sought value is pushed and then swapped to the
+            // front part of the list before the same search is repeated
+            let missed: Option<MVal> = match &op {
+                Op::Contains { h, v } | Op::Index { h, v } | Op::ForFind { h, v } => m.slots[*h].and_then(|id| if m.heap.index_of(id, v).is_none() { Some(v.clone()) } else { None }),
+                _ => None,
+            };
+            if let (Some(t), Some(v), true) = (target, missed, g.r.chance(1, 2)) {
+                if let Some(id) = m.slots[t] {
+                    let len = m.heap.lists[id].len() as u64;
+                    if elem == ElemKind::Nested {
+                        g.pool.push(v.clone());
+                    }
+                    followups.push_back((Op::Push { h: t, v }, if g.r.chance(1, 2) { Origin::Script } else { Origin::Rust }));
+                    if len >= 1 {
+                        followups.push_back((Op::Swap { h: t, i: len, j: g.r.below(len) }, if g.r.chance(1, 2) { Origin::Script } else { Origin::Rust }));
+                    }
+                    followups.push_back((op.clone(), origin.clone()));
+                }
+            } else if let Some(t) = target {
                 if let Some(id) = m.slots[t] {
                     let len = m.heap.lists[id].len() as u64;
                     let mutation = if len >= 2 && g.r.chance(2, 3) {
